@@ -66,7 +66,7 @@ def configs(tier):
                     continue
                 if bname == "stale" and (cont == "dict" or "-set" in cont):
                     continue
-                schemes = ("int",) if cont in gen.MATRIX else (("str", "gap") if "-set" not in cont else ("int",))
+                schemes = ("int",) if cont in gen.MATRIX else (("str", "gap", "tuple") if "-set" not in cont else ("int",))
                 for sch in schemes:
                     fns = (["anneal_quso"] if deg <= 2 else []) + ["anneal_puso"] if kind == "spin" else (["anneal_qubo"] if deg <= 2 else []) + ["anneal_pubo"]
                     for fn in fns:
